@@ -203,10 +203,10 @@ func Diff(a, b Snap) (path, field, left, right string, same bool) {
 // Lookup finds the record of a path.
 func (s Snap) Lookup(p string) *Rec {
 	i := sort.Search(len(s), func(i int) bool { return s[i].Path >= p })
-	if i < len(s) && s[i].Path == p {
+	if i < len(s) && s[i].Path == p && s[i].Type != "" {
 		return &s[i]
 	}
-	return nil
+	return nil // also for the placeholder record of a snapshot root that does not exist
 }
 
 // String renders the snapshot, one record per line.
